@@ -355,25 +355,39 @@ Definition env_of_pm (m : pm) (now : N) (pr : peer -> pout) : env :=
         pr.
 
 (* ---------- routing table + peer manager + clock ---------- *)
-Record sys := mkSys { s_tab : table; s_pm : pm; s_now : N }.
-Definition sys_init : sys := mkSys init pm_init 0.
+(* s_pending: KademliaProtocol._to_add, the contacts handed to KademliaProtocol.add_peer that routing_table_task has
+   not yet passed to the table (a set: no duplicates; the order in which the task pops them is not fixed) *)
+Record sys := mkSys { s_tab : table; s_pm : pm; s_now : N; s_pending : list peer }.
+Definition sys_init : sys := mkSys init pm_init 0 [].
 
 Inductive sop :=
 | STick (dt : N)
 | SReplied (k : akey)
 | SFailure (k : akey)
 | SRequested (k : akey)
-| SAdd (p : peer) (pr : peer -> pout)                 (* add_peer with a probe that touches nothing else *)
+| SAdd (p : peer) (pr : peer -> pout)                 (* TreeRoutingTable.add_peer with a probe that touches nothing else *)
 | SAddReal (p : peer) (pr : peer -> pout) (wait : N)  (* KademliaProtocol._add_peer: the probe is a real ping *)
+| SPing (q : peer) (o : pout) (wait : N)              (* any other rpc to a contact: get_rpc_peer(q).ping() *)
+| SReport (p : peer)                                  (* KademliaProtocol.add_peer(p): queued for routing_table_task *)
+| SDrainPick (p : peer) (pr : peer -> pout) (wait : N)  (* routing_table_task pops p from the queue: _add_peer(p) *)
 | SAddNoId
 | SRemove (p : peer)
 | SRemoveNoId.
+
+(* the probe of KademliaProtocol._add_peer: a ping that could not even be sent (OSError from the local socket) says
+   nothing about the incumbent, which keeps its place exactly as if it had answered *)
+Definition proto_probe (pr : peer -> pout) (q : peer) : pout :=
+  match pr q with PLocalFail => PReply | o => o end.
 
 (* the table operation a system operation amounts to in state s (None: it does not touch the table) *)
 Definition table_op (s : sys) (o : sop) : option op :=
   match o with
   | SAdd p pr => Some (Add p (env_of_pm (s_pm s) (s_now s) pr))
-  | SAddReal p pr _ => Some (Add p (env_of_pm (s_pm s) (s_now s) pr))
+  | SAddReal p pr _ => Some (Add p (env_of_pm (s_pm s) (s_now s) (proto_probe pr)))
+  | SDrainPick p pr _ =>
+      if existsb (peer_eqb p) (s_pending s)
+      then Some (Add p (env_of_pm (s_pm s) (s_now s) (proto_probe pr)))
+      else None
   | SAddNoId => Some AddNoId
   | SRemove p => Some (Remove p)
   | SRemoveNoId => Some RemoveNoId
@@ -397,15 +411,23 @@ Definition sys_step (rp : bool) (own : N) (s : sys) (o : sop) : sys * option out
       let (t', x) := step rp own (s_tab s) to in
       match o with
       | SAddReal _ pr wait =>      (* the clock moves while the ping waits for its timeout *)
-          (mkSys t' (ping_effects (s_pm s) (s_now s + wait) pr (probed_of x)) (s_now s + wait), Some x)
-      | _ => (mkSys t' (s_pm s) (s_now s), Some x)
+          (mkSys t' (ping_effects (s_pm s) (s_now s + wait) pr (probed_of x)) (s_now s + wait) (s_pending s), Some x)
+      | SDrainPick p pr wait =>
+          (mkSys t' (ping_effects (s_pm s) (s_now s + wait) pr (probed_of x)) (s_now s + wait)
+                 (remove_first (peer_eqb p) (s_pending s)), Some x)
+      | _ => (mkSys t' (s_pm s) (s_now s) (s_pending s), Some x)
       end
   | None =>
       match o with
-      | STick dt => (mkSys (s_tab s) (s_pm s) (s_now s + dt), None)
-      | SReplied k => (mkSys (s_tab s) (report_last_replied (s_pm s) k (s_now s)) (s_now s), None)
-      | SFailure k => (mkSys (s_tab s) (report_failure (s_pm s) k (s_now s)) (s_now s), None)
-      | SRequested k => (mkSys (s_tab s) (report_last_requested (s_pm s) k (s_now s)) (s_now s), None)
+      | STick dt => (mkSys (s_tab s) (s_pm s) (s_now s + dt) (s_pending s), None)
+      | SReplied k => (mkSys (s_tab s) (report_last_replied (s_pm s) k (s_now s)) (s_now s) (s_pending s), None)
+      | SFailure k => (mkSys (s_tab s) (report_failure (s_pm s) k (s_now s)) (s_now s) (s_pending s), None)
+      | SRequested k => (mkSys (s_tab s) (report_last_requested (s_pm s) k (s_now s)) (s_now s) (s_pending s), None)
+      | SPing q po wait =>
+          (mkSys (s_tab s) (ping_effects (s_pm s) (s_now s + wait) (fun _ => po) [q]) (s_now s + wait) (s_pending s), None)
+      | SReport p =>
+          if (pid p =? own) || existsb (peer_eqb p) (s_pending s) then (s, None)      (* own id refused; a set *)
+          else (mkSys (s_tab s) (s_pm s) (s_now s) (s_pending s ++ [p]), None)
       | _ => (s, None)
       end
   end.
